@@ -89,7 +89,7 @@ def kindHead : Nat → Bytes
 
 theorem tyKey_head (t : Ty) : ∃ r, tyKey t = 1 :: 0x74 :: r := by
   cases t with
-  | callable h ts => cases h <;> simp [tyKey]
+  | callable h ts hr r hb b => simp [tyKey]
   | _ => simp [tyKey, rxTyKey]
 
 theorem mk_head (x : Val) (h : cmp x = true) : ∃ r, mk x = kindHead (kind x) ++ r := by
